@@ -147,3 +147,78 @@ func (b *VerifC09Lancero) Block(chans [][]uint16, signed []bool, firstFrame, fir
 
 // VerifBrokerCount exposes the broker's connection counter (the one that gates Distribute's fast path).
 func (ds *AnySource) VerifBrokerCount() int { return ds.broker.nconnections }
+
+// ---- the RPC layer in process: what a client is told ----
+
+// VerifC09RPC is a SourceControl whose active source is a bench source. Queued requests are executed one
+// at a time by a goroutine standing in for CoreLoop (which a bench never starts); the client updates the
+// RPC layer sends go to a channel owned by this object instead of the ZMQ publisher.
+type VerifC09RPC struct {
+	SC      *SourceControl
+	any     *AnySource
+	updates chan ClientUpdate
+	stop    chan struct{}
+}
+
+func verifC09NewRPC(src DataSource, any *AnySource) *VerifC09RPC {
+	sc := new(SourceControl)
+	sc.heartbeats = make(chan Heartbeat)
+	sc.queuedRequests = make(chan func())
+	sc.queuedResults = make(chan error)
+	r := &VerifC09RPC{SC: sc, any: any, updates: make(chan ClientUpdate, 256), stop: make(chan struct{})}
+	sc.clientUpdates = r.updates
+	sc.ActiveSource = src
+	sc.isSourceActive = true
+	sc.status.Running = true
+	sc.status.ChanGroups = make([]GroupIndex, 0)
+	any.RunDoneActivate() // the RPC layer asks the source whether it runs: mark it Active the way Start does
+	go func() {
+		for {
+			select {
+			case f := <-sc.queuedRequests:
+				f()
+			case <-sc.heartbeats:
+			case <-r.stop:
+				return
+			}
+		}
+	}()
+	// Start tells clients the (empty) group trigger state of the fresh broker
+	sc.broadcastGroupTriggerState()
+	return r
+}
+
+// VerifC09RPC returns the RPC stand-in for the generic bench source.
+func (b *VerifBench) VerifC09RPC() *VerifC09RPC {
+	r := verifC09NewRPC(b.TS, &b.TS.AnySource)
+	r.SC.triangle = b.TS
+	return r
+}
+
+// VerifC09RPC returns the RPC stand-in for the card-less Lancero source.
+func (b *VerifC09Lancero) VerifC09RPC() *VerifC09RPC {
+	r := verifC09NewRPC(b.LS, &b.LS.AnySource)
+	r.SC.lancero = b.LS
+	return r
+}
+
+// Close stops the stand-in loop and marks the source Inactive again.
+func (r *VerifC09RPC) Close() {
+	close(r.stop)
+	r.any.RunDoneDeactivate()
+}
+
+// Updates returns the client updates sent since the last call, in order.
+func (r *VerifC09RPC) Updates() []VerifMsg {
+	var out []VerifMsg
+	for {
+		select {
+		case m := <-r.updates:
+			js, _ := json.Marshal(m.state)
+			out = append(out, VerifMsg{Tag: m.tag, JSON: string(js)})
+			continue
+		default:
+		}
+		return out
+	}
+}
